@@ -1174,3 +1174,54 @@ package state
 //@ modifies T.usage
 //@ loop 1 invariant[visited-moved] forall k string :: range1_visited[k] && has(usageDeltas, k) ==> T_usage(k) != nil && T_usage(k).Count == clampCount(usageBefore(k) + usageDeltas[k]) && T_usage(k).Index == idx
 //@ loop 1 invariant[unvisited-untouched] forall k string :: !(range1_visited[strLower(k)] && has(usageDeltas, strLower(k))) ==> T_usage(k) == old(T_usage(k))
+
+//@ file connect_ca.go
+// C02 (persist half): the snapshot accessor returns every row of its table, and only rows of its table.
+//@ func Snapshot.CARoots
+//@ props C02
+//@ results ret, err
+//@ requires s != nil
+//@ ensures[sound] err == nil ==> forall j int :: 0 <= j && j < len(ret) ==> ret[j] != nil && T_connect_ca_roots(ret[j].ID) == ret[j]
+//@ ensures[complete] err == nil ==> forall k string :: T_connect_ca_roots(k) != nil ==> exists j int :: 0 <= j && j < len(ret) && ret[j] == T_connect_ca_roots(k)
+//@ modifies nothing
+//@ loop 1 invariant[pos] 0 <= itPos(ixns) && itPos(ixns) <= itLen(ixns)
+//@ loop 1 invariant[cursor] (wrapped != nil ==> itPos(ixns) >= 1 && wrapped == itElem(ixns, itPos(ixns)-1)) && (wrapped == nil ==> itPos(ixns) == itLen(ixns))
+//@ loop 1 invariant[collected] len(ret) == ite(wrapped != nil, itPos(ixns) - 1, itPos(ixns)) && forall j int :: 0 <= j && j < len(ret) ==> ret[j] == itElem(ixns, j).(*structs.CARoot)
+
+//@ file connect_ca.go
+// C02 (persist half): the snapshot accessor returns every row of its table, and only rows of its table.
+//@ func Snapshot.CAProviderState
+//@ props C02
+//@ results ret, err
+//@ requires s != nil
+//@ ensures[sound] err == nil ==> forall j int :: 0 <= j && j < len(ret) ==> ret[j] != nil && T_connect_ca_builtin(ret[j].ID) == ret[j]
+//@ ensures[complete] err == nil ==> forall k string :: T_connect_ca_builtin(k) != nil ==> exists j int :: 0 <= j && j < len(ret) && ret[j] == T_connect_ca_builtin(k)
+//@ modifies nothing
+//@ loop 1 invariant[pos] 0 <= itPos(ixns) && itPos(ixns) <= itLen(ixns)
+//@ loop 1 invariant[cursor] (wrapped != nil ==> itPos(ixns) >= 1 && wrapped == itElem(ixns, itPos(ixns)-1)) && (wrapped == nil ==> itPos(ixns) == itLen(ixns))
+//@ loop 1 invariant[collected] len(ret) == ite(wrapped != nil, itPos(ixns) - 1, itPos(ixns)) && forall j int :: 0 <= j && j < len(ret) ==> ret[j] == itElem(ixns, j).(*structs.CAConsulProviderState)
+
+//@ file intention.go
+// C02 (persist half): the snapshot accessor returns every row of its table, and only rows of its table.
+//@ func Snapshot.LegacyIntentions
+//@ props C02
+//@ results ret, err
+//@ requires s != nil
+//@ ensures[sound] err == nil ==> forall j int :: 0 <= j && j < len(ret) ==> ret[j] != nil && T_connect_intentions(ret[j].ID) == ret[j]
+//@ ensures[complete] err == nil ==> forall k string :: T_connect_intentions(k) != nil ==> exists j int :: 0 <= j && j < len(ret) && ret[j] == T_connect_intentions(k)
+//@ modifies nothing
+//@ loop 1 invariant[pos] 0 <= itPos(ixns) && itPos(ixns) <= itLen(ixns)
+//@ loop 1 invariant[cursor] (wrapped != nil ==> itPos(ixns) >= 1 && wrapped == itElem(ixns, itPos(ixns)-1)) && (wrapped == nil ==> itPos(ixns) == itLen(ixns))
+//@ loop 1 invariant[collected] len(ret) == ite(wrapped != nil, itPos(ixns) - 1, itPos(ixns)) && forall j int :: 0 <= j && j < len(ret) ==> ret[j] == itElem(ixns, j).(*structs.Intention)
+
+//@ file prepared_query.go
+//@ func Snapshot.PreparedQueries
+//@ props C02
+//@ results ret, err
+//@ requires s != nil
+//@ ensures[sound] err == nil ==> forall j int :: 0 <= j && j < len(ret) ==> exists k string :: T_prepared_queries(k) != nil && ret[j] == T_prepared_queries(k).PreparedQuery
+//@ ensures[complete] err == nil ==> forall k string :: T_prepared_queries(k) != nil ==> exists j int :: 0 <= j && j < len(ret) && ret[j] == T_prepared_queries(k).PreparedQuery
+//@ modifies nothing
+//@ loop 1 invariant[pos] 0 <= itPos(queries) && itPos(queries) <= itLen(queries)
+//@ loop 1 invariant[cursor] (wrapped != nil ==> itPos(queries) >= 1 && wrapped == itElem(queries, itPos(queries)-1)) && (wrapped == nil ==> itPos(queries) == itLen(queries))
+//@ loop 1 invariant[collected] len(ret) == ite(wrapped != nil, itPos(queries) - 1, itPos(queries)) && forall j int :: 0 <= j && j < len(ret) ==> ret[j] == itElem(queries, j).(*queryWrapper).PreparedQuery
